@@ -101,3 +101,95 @@ pub fn st_width(cp: u32) -> Option<u32> {
         Some(m)
     }
 }
+
+// ---- S-COMPAT: precis_core::common::has_compat = oracle HasCompat set (cross-checked by gen.py against the real
+// unicode-normalization crate on every code point assigned in 6.3.0) ------------------------------------------
+pub fn st_has_compat(cp: u32) -> bool {
+    crate::oracle::has_compat(cp)
+}
+
+// ---- S-PRED: every table predicate of precis_core::common returns an arbitrary, fixed outcome -----------------
+// (the predicates are pure functions of the code point; a harness that evaluates ONE code point may therefore
+// replace them by solver-chosen constants: it then holds for any table contents)
+#[derive(Clone, Copy)]
+pub struct Preds {
+    pub exception: Option<precis_core::DerivedPropertyValue>,
+    pub backward: Option<precis_core::DerivedPropertyValue>,
+    pub unassigned: bool,
+    pub ascii7: bool,
+    pub join_control: bool,
+    pub old_hangul_jamo: bool,
+    pub ignorable: bool,
+    pub control: bool,
+    pub has_compat: bool,
+    pub letter_digit: bool,
+    pub other_letter_digit: bool,
+    pub space: bool,
+    pub symbol: bool,
+    pub punctuation: bool,
+}
+static mut PREDS: Preds = Preds {
+    exception: None, backward: None, unassigned: false, ascii7: false, join_control: false, old_hangul_jamo: false,
+    ignorable: false, control: false, has_compat: false, letter_digit: false, other_letter_digit: false, space: false,
+    symbol: false, punctuation: false,
+};
+static TABLE_VALUES: [precis_core::DerivedPropertyValue; 5] = [
+    precis_core::DerivedPropertyValue::PValid,
+    precis_core::DerivedPropertyValue::ContextJ,
+    precis_core::DerivedPropertyValue::ContextO,
+    precis_core::DerivedPropertyValue::Disallowed,
+    precis_core::DerivedPropertyValue::Unassigned,
+];
+static mut EXC_IDX: usize = 0;
+static mut BWD_IDX: usize = 0;
+
+pub fn pred_init<S: crate::sup::Src>(s: &mut S) {
+    // values an Exceptions / BackwardCompatible table can hold: class-independent ones
+    let e = s.below(6);
+    let b = s.below(6);
+    let p = Preds {
+        exception: if e < 5 { Some(TABLE_VALUES[e]) } else { None },
+        backward: if b < 5 { Some(TABLE_VALUES[b]) } else { None },
+        unassigned: s.bool(), ascii7: s.bool(), join_control: s.bool(), old_hangul_jamo: s.bool(), ignorable: s.bool(),
+        control: s.bool(), has_compat: s.bool(), letter_digit: s.bool(), other_letter_digit: s.bool(), space: s.bool(),
+        symbol: s.bool(), punctuation: s.bool(),
+    };
+    unsafe {
+        PREDS = p;
+        EXC_IDX = e;
+        BWD_IDX = b;
+    }
+}
+pub fn pred_snapshot() -> Preds {
+    unsafe { PREDS }
+}
+pub fn sp_exception(_cp: u32) -> Option<&'static precis_core::DerivedPropertyValue> {
+    unsafe { if EXC_IDX < 5 { Some(&TABLE_VALUES[EXC_IDX]) } else { None } }
+}
+pub fn sp_backward(_cp: u32) -> Option<&'static precis_core::DerivedPropertyValue> {
+    unsafe { if BWD_IDX < 5 { Some(&TABLE_VALUES[BWD_IDX]) } else { None } }
+}
+pub fn sp_unassigned(_cp: u32) -> bool { unsafe { PREDS.unassigned } }
+pub fn sp_ascii7(_cp: u32) -> bool { unsafe { PREDS.ascii7 } }
+pub fn sp_join_control(_cp: u32) -> bool { unsafe { PREDS.join_control } }
+pub fn sp_old_hangul_jamo(_cp: u32) -> bool { unsafe { PREDS.old_hangul_jamo } }
+pub fn sp_ignorable(_cp: u32) -> bool { unsafe { PREDS.ignorable } }
+pub fn sp_control(_cp: u32) -> bool { unsafe { PREDS.control } }
+pub fn sp_has_compat(_cp: u32) -> bool { unsafe { PREDS.has_compat } }
+pub fn sp_letter_digit(_cp: u32) -> bool { unsafe { PREDS.letter_digit } }
+pub fn sp_other_letter_digit(_cp: u32) -> bool { unsafe { PREDS.other_letter_digit } }
+pub fn sp_space(_cp: u32) -> bool { unsafe { PREDS.space } }
+pub fn sp_symbol(_cp: u32) -> bool { unsafe { PREDS.symbol } }
+pub fn sp_punctuation(_cp: u32) -> bool { unsafe { PREDS.punctuation } }
+
+pub fn pred_set_all_false(punct: bool) {
+    unsafe {
+        PREDS = Preds {
+            exception: None, backward: None, unassigned: false, ascii7: false, join_control: false, old_hangul_jamo: false,
+            ignorable: false, control: false, has_compat: false, letter_digit: false, other_letter_digit: false, space: false,
+            symbol: false, punctuation: punct,
+        };
+        EXC_IDX = 5;
+        BWD_IDX = 5;
+    }
+}
